@@ -217,7 +217,12 @@ class World:
     def net_down(self, msg):
         return [1]
 
+    def tamper(self, answer):
+        """what actually reaches the client in place of `answer` (hostile server / broken relay / spoofer): default unchanged"""
+        return [answer]
+
     def route_up(self, msg):
+        self.last_queries = (getattr(self, "last_queries", []) + [msg])[-8:]
         for d in self.net_up(msg):
             self.up.append((self.ms + d, msg))
         self.stats["up"] += 1
@@ -270,8 +275,10 @@ class World:
             a = self.relay.answer(item[1]) if item[1][:3] != C.RAW_HEADER[:3] else item[1]
             if a is None:
                 self.stats["dropped"] += 1
-            elif self.c_sel is not None and self.c_sel.get("dns"):
-                self.cop("ans " + vlib.hx(a))
+            else:
+                for b in self.tamper(a):
+                    if self.c_sel is not None and self.c_sel.get("dns") and not self.c.dead:
+                        self.cop("ans " + vlib.hx(b))
         elif what == "ctick":
             self.stats["cticks"] += 1
             self.cop("tick")
